@@ -2,6 +2,10 @@
 # Regenerates /verif/MANIFEST.json from the table below (claimed checks) and the not_applicable reasons.
 import json, subprocess
 claimed = {
+ "C12": dict(cat="proof",
+   text="buildMouseEvent/clip proved bit-exactly over all 64-bit button codes and coordinates against the xterm button/modifier table and the clamp-into-screen spec; parseXtermMouse proved (loop invariants over the byte state machine) to decode ESC[M / 0x9b M reports to position-33, button byte-32; parseSgrMouse proved with ghost field positions and a recursive decimal-value spec function: every completed report has the CSI < B ; X ; Y (M|m) shape, consumes exactly the report, and the event equals the spec including the press/drag/idle-motion/release/wheel state machine (release and buttonless motion carry no buttons, drag keeps the button, wheel leaves the held state). All byte strings, all lengths.",
+   note="Assumed: screen at least 1x1; numeric fields do not overflow int (math integers); wheel-left/right codes outside the property; bytes.Buffer methods executed from the standard library source; the direction 'every well-formed report is recognised' is not stated as a postcondition for the SGR parser (only for the X11 parser); 8-bit CSI reaching the parsers depends on the driver (C02).",
+   technique="contract-based deductive verification: bit-vector contracts, loop invariants with ghost positions and a recursive spec function unfolded once per iteration", ref="6 (C12)"),
  "C16": dict(cat="proof",
    text="Bit-vector proofs over the full 64/32-bit input domains of every colour conversion (Valid, IsRGB, Hex, RGB, TrueColor, NewHexColor, NewRGBColor, PaletteColor) against contracts taken from the property; FindColor proved optimal and member-returning for every colour and every palette length by a cut loop with an inductive invariant (CIE76 as an uninterpreted function); every entry of the xterm-256 and W3C name tables decided by evaluating the real functions on it.",
    note="Assumed: go-colorful DistanceCIE76 is deterministic/total and is CIE76; float arithmetic abstracted to uninterpreted functions over IEEE doubles (comparisons exact); package tables hold their literal initial values; the CSS table in spec/std and the xterm formula are the oracle; CSS()/GetColor('#rrggbb')/FromImageColor string and interface paths are not under contract yet. Palette members must carry the valid flag (stated precondition).",
